@@ -71,6 +71,7 @@ void sym_inputs(void)
 #ifdef REPLAY
 #include "replay_inputs.inc"
 #else
+  SYM_FEED();
   SYM_ARR(in); SYM(fail_op); SYM(read_err); SYM(misc_fail); SYM(lock_how); SYM(len_open); SYM(len_lock); SYM_ARR(split_at);
 #endif
 }
